@@ -132,11 +132,14 @@ def gamma2(tier, seed):
         ("or", lambda t: {"$or": ["mov", {"add": ["a"]}], "times": t}, {"$or": ["mov", {"add": ["a"]}]}),
         ("anyorder", lambda t: {"$and_any_order": ["mov", "add"], "times": t}, {"$and_any_order": ["mov", "add"]}),
         ("not", lambda t: {"$not": ["mov"], "times": t}, {"$not": ["mov"]}),
+        ("or1", lambda t: {"$or": ["mov"], "times": t}, {"$or": ["mov"]}),
+        ("and1", lambda t: {"$and": [{"mov": ["a"]}], "times": t}, {"$and": [{"mov": ["a"]}]}),
+        ("anyorder1", lambda t: {"$and_any_order": ["mov"], "times": t}, {"$and_any_order": ["mov"]}),
         ("and3", lambda t: {"$and": ["mov", {"add": ["a"]}, "sub"], "times": t}, {"$and": ["mov", {"add": ["a"]}, "sub"]}),
         ("or_of_and", lambda t: {"$or": [{"$and": ["mov", "add"]}, "sub"], "times": t}, {"$or": [{"$and": ["mov", "add"]}, "sub"]}),
     ]
     if tier == "quick":
-        bodies = bodies[:6]
+        bodies = bodies[:9]
     for kind, mk, plain in bodies:
         feat = f"times_{kind}"
         for n in ints:
@@ -160,8 +163,8 @@ def gamma2(tier, seed):
             out.append(t)
         # repeated group in trailing and leading position (no sentinel on one side)
         out.append({"id": f"g2/{kind}/trailing", "doc": doc_of(["push", mk({"min": 1, "max": 2})]), "feature": feat})
-        if kind != "not":
-            out.append({"id": f"g2/{kind}/leading", "doc": doc_of([mk(2), "ret"]), "feature": feat})
+        out.append({"id": f"g2/{kind}/leading", "doc": doc_of([mk(2), "ret"]), "feature": feat + ("_leading" if kind == "not" else "")})
+        out.append({"id": f"g2/{kind}/after_optional", "doc": doc_of([{"push": {"times": {"min": 0, "max": 1}}}, mk({"min": 1, "max": 2}), "ret"]), "feature": feat + ("_leading" if kind == "not" else "")})
     # full-match flags do not interact with repetition
     out.append({"id": "g2/item/fm", "doc": doc_of(["push", {"mov": ["a"], "times": {"min": 0, "max": 2}}, "ret"], True, True), "feature": "times_item_sib"})
     for mf, of in ((True, False), (False, True)):
@@ -269,6 +272,9 @@ def gamma3(tier, seed):
         out.append({"id": f"g3/deref_or/{alts}", "doc": doc_of(pat), "feature": "deref_or", "domain": "att_mem", "lemmas": ("AEM", "EA", "NE", "VAL")})
     d = {"$deref": {"main_reg": "rax", "register_multiplier": [{"$or": ["rbx", "rcx"]}], "constant_multiplier": 4}}
     out.append({"id": "g3/deref_or/index", "doc": doc_of([{"lea": [d]}, "d"]), "feature": "deref_or", "domain": "att_mem", "lemmas": ("AEM", "EA", "NE", "VAL")})
+    # 4 children with OVERLAPPING names in substring mode: one instruction must not stand for two children
+    pat = [{"$and_any_order": ["mov", "movz", "push", "pop"]}, "d"]
+    out.append({"id": "g3/ins/anyorder4_overlap", "doc": doc_of(pat), "feature": "ins_and_any_order4", "lemmas": ("AEM",), "aem_dirs": ("J-S",) if tier == "quick" else ("J-S", "S-J"), "timeout_ms": 300000 if tier == "thorough" else 60000})
     if tier == "thorough":
         # 4 children = 24 permutations
         pat = ["a", {"$and_any_order": ["b", "c", "e", "f"]}, "d"]
@@ -291,10 +297,12 @@ def gamma4(tier, seed):
         ("and", {"$and": ["mov", "add"]}),  # multi-instruction argument: still consumes ONE instruction
         ("and3", {"$and": ["mov", {"add": ["a"]}, "sub"]}),
         ("notnot", {"$not": ["mov"]}),
+        ("notnot_and", {"$not": [{"$and": ["mov", "add"]}]}),
+        ("not_times", {"mov": {"times": 2}}),
         ("anyorder", {"$and_any_order": ["mov", "add"]}),
     ]
     if tier == "quick":
-        args = args[:5]
+        args = args[:5] + [a for a in args if a[0] in ("notnot_and",)]
     for an, X in args:
         N = {"$not": [X]}
         out.append({"id": f"g4/leading/{an}", "doc": doc_of([N, "call"]), "feature": "not_leading"})
@@ -438,6 +446,9 @@ def gamma5(tier, seed):
         D3 = ["a", "0x1", "0x10"]
         T("op/three_names", [{"mov": ["&x", "&y"]}, {"add": ["&z", "&x"]}, {"sub": ["&y", "&z"]}], ["&x", "&y", "&z"], {"&x": D3, "&y": D3, "&z": D3}, "cap_operand_later_mid")
         T("op/three_names_b", [{"mov": ["&z"]}, {"add": ["&y"]}, {"sub": ["&x"]}, {"xor": ["&x", "&y", "&z"]}], ["&z", "&y", "&x"], {"&x": D3, "&y": D3, "&z": D3}, "cap_operand_later_mid")
+    # a repeated item WITH operands before the captures (no other capturing group may be emitted)
+    T("op/after_repeated_item", [{"mov": ["a"], "times": 2}, {"mov": ["&x", "&y"]}, {"push": ["&y"]}], ["&x", "&y"], {"&x": D2, "&y": D2}, "cap_after_repeated_item")
+    T("op/after_repeated_group", [{"$or": ["mov", {"add": ["a"]}], "times": {"min": 1, "max": 2}}, {"mov": ["&x"]}, {"push": ["&x"]}], ["&x"], {"&x": D2}, "cap_after_repeated_item")
     # ---- instruction captures
     DI = [ins_text("mov", [""]), ins_text("mov", ["a"]), ins_text("mov", ["a", "b"]), ins_text("movl", ["a"]), ins_text("mov", ["ab"])]
     T("ins/define_only", ["&i", "ret"], ["&i"], {"&i": DI}, "cap_instruction")
